@@ -27,6 +27,7 @@ GEN = "genfuncs"
 # ---------------------------------------------------------------- probing the model variant flags
 # One witness package per known defect class; the flag is "fixed" iff the real goderive succeeds on it
 # and the emitted file type-checks. Order = the digits of genfuncs' -cfg flag.
+ERRS = "type Errs []string\n\nfunc (e Errs) Error() string { return \"x\" }\n\n"
 PROBES = [
     ("unnamedFixed", "F6", "package w\n\nvar F func(int, string) int\n\nvar W = deriveCurry(F)\n"),
     ("shadowFixed", "F6", "package w\n\nvar F func(f int, b string) int\n\nvar W = deriveCurry(F)\n"),
@@ -37,7 +38,15 @@ PROBES = [
      "func F1(a NI) (S, [2]int, NI, error) { return S{}, [2]int{}, 0, nil }\n\nvar W = deriveCompose(F0, F1)\n"),
     ("lhsFixed", "F5", "package w\n\nfunc F0(a int) error { return nil }\nfunc F1() (int, error) { return 0, nil }\n"
      "func F2(a int) error { return nil }\n\nvar W = deriveCompose(F0, F1)\nvar V = deriveComposeV(F1, F2)\n"),
+    # a custom error type as last result: the helper must be usable (or the call refused: then the model's accept bit is wrong and shows up in the corpus)
+    ("errTypeFixed", "errtype", "package w\n\n" + ERRS + "func F0(a int) (int, Errs) { return a, nil }\nfunc F1(a int) (int, error) { return a, nil }\n\nvar W = deriveCompose(F0, F1)\n"),
+    # Error on the pointer receiver, used by value: fixed = REFUSED by goderive
+    ("errRecvFixed", "errrecv", "package w\n\ntype E5 []int\n\nfunc (e *E5) Error() string { return \"\" }\n\nfunc F(a int) (int, bool) { return a, true }\n\nvar e5 E5\nvar W = deriveToError(e5, F)\n"),
+    # typed nil handed to join: fixed = the program calls f and gets a nil error
+    ("typedNilFixed", "typednil", "package main\n\n" + ERRS + "var called bool\n\nfunc F() (int, error) { called = true; return 1, nil }\n\n"
+     "func main() {\n\tvar e0 Errs\n\tv, err := deriveJoin(F, e0)\n\tif called && v == 1 && err == nil {\n\t\tprintln(\"ok\")\n\t}\n}\n"),
 ]
+PROBE_MODE = {"errRecvFixed": "refuse", "typedNilFixed": "run"}
 
 # informational probes (not model variants): defects outside the statements of C15/C16 that live in the same plugins
 INFO_PROBES = [
@@ -46,12 +55,16 @@ INFO_PROBES = [
 ]
 
 # reason reported by the model for a wrapper that does not compile -> finding id
-WHY_FINDING = {"unnamed": "F6", "shadow": "F6", "dup": "F6", "void": "F25", "zero": "F5", "emptylhs": "F5"}
+WHY_FINDING = {"unnamed": "F6", "shadow": "F6", "dup": "F6", "void": "F25", "zero": "F5", "emptylhs": "F5",
+               "errtype": "errtype", "errrecv": "errrecv", "typednil": "typednil"}
 WHY_TEXT = {
     "unnamed": "unnamed parameters: the wrapper body is printed as `f(, )` and does not compile",
     "shadow": "a parameter named like the generator's own binder (`f`, `err`) captures it: the wrapper does not compile",
     "dup": "uncurry merges outer and inner parameter lists whose names clash (also via its own innerParam_<i>/param_<i> renaming): duplicate parameter, does not compile",
     "void": "a wrapped function WITHOUT results is forwarded as `return f(...)` by curry, uncurry, flip and apply: `f(...) (no value) used as value`, does not compile",
+    "errtype": "a custom error type (named type with Error() string) as the last result of a stage is accepted, but the helper's parameter is printed with the predeclared error: the call does not compile (compose, traverse, fmap and join error forms)",
+    "errrecv": "derive.IsError accepts a type whose Error method has a pointer receiver although it is used by value (does not implement error): exit 0, package does not compile",
+    "typednil": "deriveJoin(f, e) with a nil value e of a custom error type: the helper receives a non-nil error, does not call f and returns zero values with a non-nil error",
     "zero": "derive.Zero prints `nil` as the zero value of a named basic type, struct or array: the helper does not compile",
     "emptylhs": "compose prints `, err0 :=` / `return , err0` for a stage without non-error results: the helper does not compile",
 }
@@ -72,7 +85,14 @@ def probe_flags(binp, cdir):
             f.write(src)
         rc, err, to = common.run_goderive(binp, pdir, ["./w%d" % i], timeout=60)
         ok = False
-        if rc == 0:
+        mode = PROBE_MODE.get(flag, "build")
+        if mode == "refuse":
+            ok = rc == 1
+        elif rc == 0 and mode == "run":
+            p = common.sh(["go", "run", "./w%d" % i], cwd=pdir, timeout=300)
+            ok = p.returncode == 0 and "ok" in p.stderr + p.stdout
+            err = p.stderr
+        elif rc == 0:
             p = common.sh(["go", "build", "./w%d" % i], cwd=pdir, timeout=300)
             ok = p.returncode == 0
             err = p.stderr
@@ -267,14 +287,14 @@ def compare(rep, info, prop, opnames, only_pkg=None):
                     t1_broken.append((op, impl, model, spec))
                 continue
             # the real code violates the property on this input
-            why = why_of.get(f[3])
+            why = dm.get("why") or why_of.get(f[3])
             fid = WHY_FINDING.get(why)
             if model == impl and fid:
                 dkey = (fid, why)
                 dd = defects.setdefault(dkey, {"ops": 0, "pkgs": set(), "witness": None})
                 dd["ops"] += 1
                 dd["pkgs"].add(f[3])
-                if f[2] == "build" and (dd["witness"] is None or len(op) < len(dd["witness"][0])):
+                if (f[2] == "build" or dm.get("why")) and (dd["witness"] is None or len(op) < len(dd["witness"][0])):
                     dd["witness"] = (op, impl, model, spec)
             else:
                 other_spec.append((op, impl, model, spec))
@@ -366,6 +386,8 @@ APPLICABLE = {
          ["compose_compiles_partial", "zero_ok", "zero_witnesses", "compose_lhs_witness", "fmap_join_zero_witness"]),
         (("unnamedFixed", "shadowFixed"), ["toerror_compiles_partial (side condition empty)"],
          ["toerror_compiles_partial", "toerror_witnesses"]),
+        (("errTypeFixed", "errRecvFixed", "typedNilFixed"), ["isError_sound_partial (side condition empty)"],
+         ["isError_sound_partial", "isError_witnesses"]),
     ],
 }
 ALWAYS = {
